@@ -10,6 +10,12 @@ Implementation oracles: sum of exp(trio_log_pmf) over all unordered progeny = 1;
 over all gametes = 1; the enumerator visits every vector under the constraint exactly once in
 strictly decreasing lexicographic order; with zero error `pmf > 0 <=> trio_valid / duo_valid`;
 `increment_dosage` is never called outside its contract (all-zero vector) by `trio_valid`.
+Round 5 (input shapes): lambda = 1, progeny alleles in arbitrary order, scratch arrays reused / pre-filled with junk,
+tau = parental ploidy with the other parent contributing, odd parental ploidy, octoploids, per-edge error pairs with exactly one
+side certain; `PedigreeAllelesMultiTrace.incongruence` (PEDERR) on stacked int16 traces padded with -1 against the fraction of
+observations of zero inheritance probability (and an independent "is there a pair of possible gametes" test, `wp4.spec_positive`);
+`parse_pedigree_arguments` on generated files and `call_pedigree.program.call_sample_genotypes` with the sampler replaced by a
+recorder: dicts, the arrays handed to the sampler, and FORMAT/PEDERR of the record.
 """
 from __future__ import annotations
 
@@ -60,7 +66,12 @@ RULE = ("cases: every unordered progeny genotype of (n_alleles 1..4) x (ploidy_p
         "unbalanced / clonal (tau = 0) / unknown-parent configurations x lambda {0, .1, .5} (tau = 2) x errors {0, .01, .5, 1} x "
         "frequencies {flat, skewed, with zeros}, parents drawn with an excess of repeated alleles; enumerated gametes; random "
         "constraint vectors for the enumerator. Non-trivial: >= 2 alleles and a progeny / gamete with a repeated allele or a "
-        "parent with a repeated allele. Distinct by canonical request line.")
+        "parent with a repeated allele. Distinct by canonical request line. Round 5: lambda 1.0, configurations with tau = parental ploidy, "
+        "parental ploidy 3 / 5 / 8, gamete tau 0 / 4, per-edge error pairs (0, x) / (x, 0) / (0, 1) / (1, 0), progeny order shuffled on ~30 % of "
+        "the trios, scratch arrays fresh / shared / junk-filled; PEDERR: random pedigrees (per-individual ploidy and tau, founders, p-only and "
+        "q-only duos, selfing, clones, indices permuted) x stacked Mendelian / noisy / random states as (chains, steps, N, max_ploidy) int16 "
+        "traces; call-pedigree glue: pedigree / ploidy / gamete-ploidy / gamete-ibd / gamete-error given as scalar or as shuffled files, "
+        "members without alignment file, then call_sample_genotypes with a recording sampler.")
 
 # (ploidy_p, ploidy_q, tau_p, tau_q); ploidy 0 = unknown parent
 CONFIGS = [
@@ -487,6 +498,11 @@ def run(tier, replay=None):
             chk.violation("trio_log_pmf leaves values of an earlier call in its dosage scratch vectors (they are inputs of the gamete loops)",
                           {"progeny": parr.tolist(), "parent_p": par_p.tolist(), "parent_q": par_q.tolist(), "ploidy": [pp, pq], "tau": [tp, tq],
                            "scratch_after": {k_: sc[k_].tolist() for k_ in sc}}, "C17/trio/scratch-stale")
+            lines.append(lines[-1])
+        elif m >= 8 and not (tier == "thorough" and i % 4 == 0):
+            # the exact sum over all gamete pairs on 8 slots costs ~0.1 s per progeny in the model: the octoploid cases are
+            # evaluated on allele-count vectors only (the slot vectors themselves are still compared through ped.slots)
+            chk.count("slot-form-skipped(m>=8)")
             lines.append(lines[-1])
         else:
             lines.append(trio_line("ped.trio", sc["dosage"], sc["dosage_p"], sc["dosage_q"], pp, pq, tp, tq, lp, lq, ep, eq, fslots))
